@@ -101,3 +101,39 @@ def _(self: Obj(IeeKeyBlob, key1=Union[Bytes(16), Bytes(32)], key2=Bytes(16)), b
     pure()
     sample_with(lambda rnd: {"self": _mk_iee(rnd), "base_address": rnd.choice([0x30000000, 0x30001000, 0x30001800, 0x300017F0, 0x3000FFF0]),
                              "data": bytes(rnd.getrandbits(8) for _ in range(rnd.choice([16, 32, 48])))})
+
+
+# ----------------------------------------------------------------------------------------------------------------------
+# OTFAD key blob, plain form (what the KEK wraps): key, counter, range with flags, CRC-32/MPEG-2 of the first 32 bytes
+# ----------------------------------------------------------------------------------------------------------------------
+from specs.crypto import CRC  # noqa: E402
+
+concrete_ok("spsdk.crypto.crc:from_crc_algorithm", "spsdk.crypto.crc:Crc")
+KB = Obj(KeyBlob, key=Bytes(16), ctr_init_vector=Bytes(8), start_addr=U32, end_addr=Range(1, 0xFFFFFFFF), key_flags=Range(0, 7),
+         zero_fill=Optional[Bytes(4)], crc_fill=Optional[Bytes(4)])
+
+
+def _mk_kb(rnd):
+    start = rnd.randrange(0, 1 << 20) * 1024
+    return KeyBlob(start, start + rnd.choice([0x3FF, 0x400, 0x7FF, 0x12345]), key=bytes(rnd.getrandbits(8) for _ in range(16)),
+                   counter_iv=bytes(rnd.getrandbits(8) for _ in range(8)), key_flags=rnd.randrange(8), zero_fill=rnd.choice([None, bytes(4)]),
+                   crc=rnd.choice([None, b"\x01\x02\x03\x04"]))
+
+
+@contract("spsdk.utils.crypto.otfad:KeyBlob.plain_data")
+def _(self: KB) -> bytes:
+    ensures(len(result) == 64, label="64-bytes")
+    ensures(result[0:16] == self.key and result[16:24] == self.ctr_init_vector, label="key-then-counter")
+    ensures(int.from_bytes(result[24:28], "little") == self.start_addr, label="start-address")
+    ensures(int.from_bytes(result[28:32], "little") == (self.end_addr - 1) // 1024 * 1024 + 0x3F8 + self.key_flags,
+            label="end-address-register-last-1k-unit-with-flags")
+    ensures(implies(self.zero_fill is not None, result[32:36] == self.zero_fill), label="zero-fill-as-given")
+    ensures(result[36:40] == (self.crc_fill if self.crc_fill is not None else CRC(0x104C11DB7, 0xFFFFFFFF, False, 0, result[0:32]).to_bytes(4, "little")),
+            label="crc32-mpeg2-of-the-first-32-bytes")
+    ensures(result[40:64] == bytes(24), label="rest-zero")
+    sample_with(lambda rnd: {"self": _mk_kb(rnd)})
+
+
+@lemma("otfad-end-address-register-arithmetic")
+def _(end: Range(1, 0xFFFFFFFF), flags: Range(0, 7)):
+    ensures((((end - 1) & ~0x07) | flags | 0x3F8) == (end - 1) // 1024 * 1024 + 0x3F8 + flags)
